@@ -26,6 +26,7 @@ INB = part('inb', ['rr', 'rs'])            # request frames the peer sends (in t
 RAISING = part('raising', False)           # one responder publisher's cancel() raises
 FRAG_TAIL = part('frag_tail', True)        # the inbound stream ends with a fragmented PAYLOAD (3 fragments) for an own stream
 MODE = part('mode', None)                  # None: symbolic
+ON_CLOSE = part('on_close', 0)             # application's on_close: 0 returns, 1 raises, 2 does not return for a long time
 
 
 class _H(BaseRequestHandler):
@@ -55,6 +56,10 @@ class _H(BaseRequestHandler):
 
     async def on_close(self, rsocket, exception=None):
         self.closed += 1
+        if ON_CLOSE == 1:
+            raise RuntimeError('application on_close failed')
+        if ON_CLOSE == 2:
+            await create_future()          # a slow clean-up / reconnect back-off: never returns within the scenario
 
 
 def _inbound(own_first_id, peer_ids):
@@ -190,19 +195,20 @@ def c_cut(c: int, mode: int, settle_ms: int) -> str:
         for p in h.pubs:
             if p.sub is not None and not p.done and p.cancelled < 1:
                 devs.append('C11:responder-publisher-not-cancelled')
+        strict = ON_CLOSE == 0
         if h.closed != 1:
             devs.append('C11:on_close-delivered-%d-times' % h.closed)
-        if mode != 3 and len(outbound.written) != written_at_loss:
+        if strict and mode != 3 and len(outbound.written) != written_at_loss:
             devs.append('C11:frame-written-after-connection-ended')
         if mode in (0, 1) and written_at_loss != written_before:
             devs.append('C11:frame-written-in-reaction-to-connection-loss')
         if ep._stream_control._streams:
             devs.append('C11:streams-left-registered')
-        d = generic_dev(loop, ep, expect_closed=True)
+        d = generic_dev(loop, ep, expect_closed=True) if strict else ''
         if d:
             devs.append('C11:' + d)
         kt = getattr(ep, '_keepalive_task', None)
-        if kt is not None and not kt.done():
+        if strict and kt is not None and not kt.done():
             devs.append('C11:keepalive-task-alive')
         stats.note(len(h.futs) + len(h.pubs) + len(own) >= 2,
                    {'role': ROLE, 'mode': mode, 'own': list(OWN), 'responder_futs': n_resp_futs, 'responder_pubs': n_resp_pubs})
